@@ -3,6 +3,8 @@
 check against it, expect a VIOLATION (exit 1). Scratch worktrees live outside /repo and /verif and are removed.
 
 usage: selftest.py [--dir selftest/mutants|seeded] [name-substring ...]
+       selftest.py --benign [name-substring ...]   must-pass corpus (selftest/benign): behaviour-preserving edits
+                                                   on which the property's check has to stay silent (exit 0)
 """
 import json, os, subprocess, sys, tempfile, shutil, time
 
@@ -14,6 +16,9 @@ def run(cmd, **kw):
 
 def main():
     args = sys.argv[1:]
+    benign = False
+    if args and args[0] == "--benign":
+        benign = True; args = ["--dir", "selftest/benign"] + args[1:]
     dirs = []
     while args and args[0] == "--dir":
         dirs.append(args[1]); args = args[2:]
@@ -44,6 +49,19 @@ def main():
             if r.returncode != 0:
                 print("SELFTEST-ERROR %s: patch does not apply: %s" % (os.path.basename(m), r.stdout)); bad += 1; continue
             caught = []
+            if benign:
+                alarms = []
+                for p in props:
+                    env = dict(os.environ, GOCV_REPO=wt, GOCV_OUT=out, GOFLAGS="-mod=mod", GOPROXY="off")
+                    r = run([os.path.join(VERIF, "bin", "gocv"), "check", p], env=env, cwd=VERIF)
+                    viol = [l for l in r.stdout.splitlines() if l.startswith("VIOLATION")]
+                    if r.returncode != 0 or viol:
+                        alarms.append("%s exit %d: %s" % (p, r.returncode, (viol or r.stdout.splitlines()[-1:])[0][:220]))
+                if alarms:
+                    print("FALSE-ALARM %s: %s" % (os.path.basename(m), "; ".join(alarms))); bad += 1
+                else:
+                    print("SILENT  %s: %s" % (os.path.basename(m), ", ".join(props)))
+                continue
             for p in props:
                 env = dict(os.environ, GOCV_REPO=wt, GOCV_OUT=out, GOFLAGS="-mod=mod", GOPROXY="off")
                 t0 = time.time()
@@ -66,7 +84,7 @@ def main():
             run(["git", "-C", REPO, "worktree", "remove", "--force", wt])
             shutil.rmtree(base, ignore_errors=True)
             run(["git", "-C", REPO, "worktree", "prune"])
-    print("selftest: %d mutants, %d missed" % (len(names), bad))
+    print("selftest: %d %s, %d %s" % (len(names), "benign edits" if benign else "mutants", bad, "false alarms" if benign else "missed"))
     return 1 if bad else 0
 
 if __name__ == "__main__":
